@@ -245,6 +245,20 @@ pub fn family(name: &str, tier: Tier) -> Vec<Case> {
             s.client.conn_window = Some(1500);
             s.tasks = vec![echo_task(4000, 0), echo_task(4000, 1000)];
             add(s, 1);
+            // a reader that sleeps and then drains in one burst: a single MAX_DATA / MAX_STREAM_DATA is all
+            // that can unblock the sender, so its loss must be repaired by retransmission
+            let mut s = Scenario::base("live/conn-credit-burst-reader");
+            s.server.conn_window = Some(2000);
+            s.server_mode.read_delay_ms = 400;
+            s.server_mode.echo = false;
+            s.tasks = vec![vec![Op::OpenBidi, Op::Write(5000, 0), Op::Finish, Op::AwaitReader]];
+            add(s, 1);
+            let mut s = Scenario::base("live/stream-credit-burst-reader");
+            s.server.stream_window = Some(2000);
+            s.server_mode.read_delay_ms = 400;
+            s.server_mode.echo = false;
+            s.tasks = vec![uni_task(5000, 0), vec![Op::OpenBidi, Op::Write(5000, 0), Op::Finish, Op::AwaitReader]];
+            add(s, 1);
             let mut s = Scenario::base("live/stream-count-credit");
             s.server.max_bidi_remote = Some(1);
             s.client.max_bidi_local = Some(1);
